@@ -322,8 +322,8 @@ def oracle_event(case, obs):
     d = obs["json"]
     if obs["schema_errors"]:
         return ("C13:schema", f"JSON form does not validate: {obs['schema_errors'][:2]}")
-    if not (isinstance(d["timestamp"], str) and ISO_SHAPE.match(d["timestamp"]) and type(d["duration"]) is float
-            and isinstance(d["data"], dict)):
+    if not (isinstance(d, dict) and isinstance(d.get("timestamp"), str) and ISO_SHAPE.match(d["timestamp"])
+            and type(d.get("duration")) is float and isinstance(d.get("data"), dict)):
         return ("C13:json-shape", f"unexpected JSON shape {d}")
     if abs(k) < TD_BOUND:
         if "e2" not in obs:
